@@ -412,8 +412,25 @@ def rule11(ctx, prog, flows, root):
     oks = result_ctor_sites(root, "Ok")
     reach = root.reachable_from(0, avoid=tuple(anchors)) | {0}
     n = 0
+    fl_r = flows.of(root)
+
+    def _empty_graph_guard(bb_):
+        # an early Ok behind `number_of_nodes() == 0` / `get_all_nodes().is_empty()` is the whole answer for a graph
+        # without nodes
+        for (te, v, a) in controlling_atoms(fl_r, bb_):
+            if not isinstance(te, tuple):
+                continue
+            on_nodes = desc_mentions(te, lambda x: isinstance(x, tuple) and ((x[0] == "call" and x[1].split("::")[-1] in ("number_of_nodes", "get_all_nodes", "get_all_node_names")) or (x[0] == "place" and x[1].split(".")[-1] in ("nodes_vec", "num_nodes"))))
+            empt = desc_mentions(te, lambda x: isinstance(x, tuple) and ((x[0] == "call" and x[1].split("::")[-1] == "is_empty") or (x[0] == "const" and x[1].replace("const ", "").startswith("0"))))
+            if on_nodes and empt:
+                return True
+        return False
+
     for (bb, st) in oks:
         n += 1
+        if bb in reach and _empty_graph_guard(bb):
+            ctx.ok("R-C06-11", "ok-behind-per-node-computation|%d" % n, "early Ok behind a test that the graph has no nodes", loc_str(st.span))
+            continue
         ctx.require(bb not in reach, "R-C06-11", "ok-behind-per-node-computation|%d" % n, "the Ok return is reached only through the per-node computation",
                     "closeness_centrality can return Ok without running the per-node computation (an early return): the map handed back has no entry for the nodes, where every node must get a value (0 when nothing else reaches it)", loc_str(st.span))
     ctx.floor("R-C06-11", "ok_returns", n, 1)
